@@ -369,12 +369,14 @@ def loop_carried_names(loop, store_ok=(), distinct_calls=()):
                         pass  # X[i] = ... where iteration i is the only one touching cell i of X
                     elif isinstance(t, ast.Subscript) and isinstance(t.value, ast.Name) and t.value.id in targets:
                         reads(t.slice, definite)  # a store INTO the element of this iteration (elements of the sequence are distinct objects)
+                    elif isinstance(t, ast.Attribute) and isinstance(t.value, ast.Name) and t.value.id in targets:
+                        pass  # an attribute of the element of this iteration: no other iteration sees it (elements are distinct objects)
                     else:
                         carried.add("<store to %s>" % ast.unparse(t)[:30])
             elif isinstance(st, ast.AugAssign):
                 reads(st.value, definite)
                 if isinstance(st.target, ast.Name):
-                    if st.target.id not in definite:
+                    if st.target.id not in definite and st.target.id not in targets:  # the loop statement itself (re)binds its targets in every iteration
                         carried.add(st.target.id)
                 elif isinstance(st.target, ast.Subscript) and ast.unparse(st.target.value) in cells:
                     pass
